@@ -58,6 +58,19 @@ def run_positions(ctx, n, with_model=True):
             ctx.tie_break("pos", {"key": k, "model": ans, "hashlib": want})
 
 
+def unencodable_keys(ctx):
+    """a key that has no UTF-8 encoding (a str with a lone surrogate) has no position in the published scheme: `md5(key.encode("utf-8"))` raises"""
+    from pyab_experiment.binning import binning
+    from pyab_experiment.experiment_evaluator import ExperimentEvaluator
+    for k in ("user-\ud83d-17", "caf\udce9", "\udc80", "a\udfffb"):
+        out = common.outcome_of(lambda: binning.deterministic_proba(k))
+        ctx.case(("unencodable", repr(k)), True)
+        ctx.count("pos:unencodable")
+        if out != {"e": "EncodeError"}:
+            ctx.violation(f"deterministic_proba({k!r}) = {json.dumps(out)[:80]}: the key has no UTF-8 encoding, the published scheme (md5 of the UTF-8 bytes) assigns it no position",
+                          {"key": repr(k), "impl": out})
+
+
 def run_evaluators(ctx, n):
     rng = ctx.rng
     cases = []
@@ -66,9 +79,14 @@ def run_evaluators(ctx, n):
                            ident_pool=gen.PLAIN_IDENTS + ["X", "USER", "Country", "_x", "_id", "Zone", "ID", "B", "Uid", "uId", "a_B", "A_b"],
                            p_shared=0.3, max_nodes=4)
         prog = gen.gen_program(rng, opts)
-        text = gen.render(prog, rng, "plain")
+        text = gen.render(prog, rng, rng.choice(["plain", "plain", "trivia"]))
         envs = [gen.gen_env(prog, rng) for _ in range(5)]
         cases.append({"prog": prog, "text": text, "envs": envs})
+    # sibling field names: digit runs of different length, leading zeros (the published order is plain code-point order of the names)
+    for names in (["f2", "f10"], ["f10", "f2", "f1"], ["bucket_1", "bucket_01"], ["bucket_01", "bucket_1", "bucket_001"], ["a9", "a10", "a09", "A10"], ["x_2_b", "x_10_a"]):
+        prog = gen.Program("e", gen.lit_str("s", quote='"'), names, ("ret", [(gen.lit_str("a", quote='"'), "1"), (gen.lit_str("b", quote='"'), "2"), (gen.lit_str("c", quote='"'), "1")]),
+                           {x: "any" for x in names})
+        cases.append({"prog": prog, "text": gen.render(prog, rng, "plain"), "envs": [{x: "v%d%s" % (k, x[-1]) for x in names} for k in range(6)]})
     # splitter fields named like the identifiers of the generated code itself (a local of the generated function must not capture them)
     for nm in gen.host_names():
         prog = gen.Program("e", gen.lit_str("s", quote='"'), [nm, "zz"], ("ret", [(gen.lit_str("a", quote='"'), "1"), (gen.lit_str("b", quote='"'), "2"), (gen.lit_str("c", quote='"'), "1")]),
@@ -103,6 +121,7 @@ def run(ctx):
     run_positions(ctx, n)
     run_evaluators(ctx, max(40, n // 40))
     choicelib.run_half_step(ctx, 40)
+    unencodable_keys(ctx)
     from props import c15
     c15.equal_values_in_sequence(ctx)       # 1 then 1.0 then True on one evaluator: each is hashed by its own printed form
 
